@@ -238,7 +238,7 @@ def ob_whole_runs(n: int, s1: int, s2: int, h0: int, h1: int) -> bool:
 
 @obligation(quick=300, thorough=600,
             partitions_quick=[f"n == {n} and s1 == {a}" for n in (1, 2, 3) for a in (0, 1, 2)],
-            partitions_thorough=[f"n == {n} and s1 == {a} and s2 == {b}" for n in (1, 2, 3) for a in (0, 1, 2) for b in (0, 1, 2, 3)],
+            partitions_thorough=[f"n == {n} and s1 == {a} and s2 == {b}" for n in (1, 2, 3) for a in (0, 1, 2, 3) for b in (0, 1, 2, 3)],
             what="whole runs through the REAL Workflow.run -> BasicRuntime.run_workflow (task done-callbacks, registry, semaphore map "
                  "included) -> control loop -> step: 4 runs of ONE instance with limit n, started at symbolic instants and holding their "
                  "slot for symbolic durations — runs that end while siblings still hold slots, then new starts: never more than n inside "
